@@ -230,9 +230,11 @@ pub fn ids(data: &[u8], obs: &mut Obs) -> ORes {
 /// legitimately expand to about 24 bytes per input bit (a `Vec<String>` of empty strings), twice
 /// that with `Vec` growth: input-proportional bounds for bitcode containers use this factor.
 pub const BITCODE_AMP: usize = 512;
-/// bitcode reserves at most 1 MiB for a claimed length before it has validated the elements
-/// (measured: `nv_c20 child calibrate`), whatever the input size.
-pub const BITCODE_SLACK: usize = (1 << 20) + 65536;
+/// The product uses bitcode's serde mode: collections are pre-allocated through serde's
+/// `size_hint::cautious`, i.e. at most 1 MiB worth of elements for a claimed length before any
+/// element is decoded (measured: `nv_c20 child calibrate`); a hash map rounds its bucket count
+/// up to a power of two above 8/7 of that (observed 2 228 240 bytes for `HashMap<usize, bool>`).
+pub const BITCODE_SLACK: usize = (4 << 20) + 65536;
 pub fn amp() -> usize {
     static AMP: std::sync::OnceLock<usize> = std::sync::OnceLock::new();
     *AMP.get_or_init(|| std::env::var("NV_C20_AMP").ok().and_then(|s| s.parse().ok()).unwrap_or(BITCODE_AMP))
@@ -249,7 +251,7 @@ pub fn rle(data: &[u8], obs: &mut Obs) -> ORes {
     use tensor_compress::{rle_decode, rle_encode, RleEncoded};
     let n = data.len();
     let (r, a) = guarded("bitcode:RleEncoded", || bitcode::deserialize::<RleEncoded<i64>>(data))?;
-    check_alloc("bitcode:RleEncoded", a, amp() * n + BITCODE_SLACK, "512 x input + 1 MiB + 64 KiB")?;
+    check_alloc("bitcode:RleEncoded", a, amp() * n + BITCODE_SLACK, "512 x input + 4 MiB + 64 KiB")?;
     let Ok(enc) = r else {
         obs.label("rle:reject");
         return Ok(());
@@ -280,7 +282,7 @@ pub fn rle_value(enc: &tensor_compress::RleEncoded<i64>, input_len: usize, obs: 
     let (dec, a) = guarded("rle_decode", || rle_decode(enc))?;
     // the output legitimately needs 8 bytes per produced element
     let bound = 16 * paired as usize + amp() * input_len + BITCODE_SLACK;
-    check_alloc("rle_decode", a, bound, "16 x elements produced + 512 x input + 1 MiB + 64 KiB")?;
+    check_alloc("rle_decode", a, bound, "16 x elements produced + 512 x input + 4 MiB + 64 KiB")?;
     if dec.len() as u64 != paired {
         return fail("rle:decoded-length", format!("{} elements, paired run lengths sum to {paired}", dec.len()));
     }
@@ -356,7 +358,7 @@ pub fn csnap(data: &[u8], obs: &mut Obs) -> ORes {
     use tensor_compress::format::{decompress_ints, decompress_vector};
     let n = data.len();
     let (r, a) = guarded("CompressedSnapshot::deserialize", || CompressedSnapshot::deserialize(data))?;
-    check_alloc("CompressedSnapshot::deserialize", a, amp() * n + BITCODE_SLACK, "512 x input + 1 MiB + 64 KiB")?;
+    check_alloc("CompressedSnapshot::deserialize", a, amp() * n + BITCODE_SLACK, "512 x input + 4 MiB + 64 KiB")?;
     let snap = match r {
         Ok(s) => s,
         Err(_) => {
@@ -555,10 +557,10 @@ pub fn frame_with(cfg: CodecCfg, stream: &[u8], obs: &mut Obs) -> ORes {
     // which is at most max_frame_length and at most what the stream can hold / expand to.
     let (bound, why) = if cfg.v2 {
         let payload = max.min(stream.len().saturating_mul(256) + 64);
-        (max + MAX_DECOMPRESSED_SIZE + amp() * payload + BITCODE_SLACK, "max_frame_length + MAX_DECOMPRESSED_SIZE + 512 x payload + 1 MiB + 64 KiB")
+        (max + MAX_DECOMPRESSED_SIZE + amp() * payload + BITCODE_SLACK, "max_frame_length + MAX_DECOMPRESSED_SIZE + 512 x payload + 4 MiB + 64 KiB")
     } else {
         let payload = max.min(stream.len());
-        (max + amp() * payload + BITCODE_SLACK, "max_frame_length + 512 x payload + 1 MiB + 64 KiB")
+        (max + amp() * payload + BITCODE_SLACK, "max_frame_length + 512 x payload + 4 MiB + 64 KiB")
     };
     check_alloc(site, a, bound, why)?;
 
@@ -834,7 +836,7 @@ pub fn wal_with(kind: WalKind, verify: bool, file: &[u8], obs: &mut Obs) -> ORes
     let site = format!("wal-replay:{}", kind.name());
     let (res, a) = guarded(&site, || wal_replay(kind, verify, &f.0))?;
     // no record can be larger than the file it is read from
-    check_alloc(&site, a, amp() * file.len() + BITCODE_SLACK, "512 x file size + 1 MiB + 64 KiB (a record cannot exceed its file)")?;
+    check_alloc(&site, a, amp() * file.len() + BITCODE_SLACK, "512 x file size + 4 MiB + 64 KiB (a record cannot exceed its file)")?;
 
     let frames = wal_frames(file);
     // entries the log really holds: complete frames, in order, up to the first that does not decode
